@@ -68,6 +68,15 @@ def run_demo(repo_root: Path, sdir: Path) -> int | None:
 
 def one(sdir: Path, args: argparse.Namespace) -> dict:
     meta = json.loads((sdir / "meta.json").read_text())
+    sys.path.insert(0, str(VERIF / "tools"))
+    import seeded_audit
+
+    moved = seeded_audit.audit(sdir)
+    if moved:
+        # git apply would put a hunk somewhere else than where it was written for
+        return {"id": sdir.name, "property": meta["property"], "checks": {}, "caught_by": [],
+                "result": "MISPLACED: " + moved}  # fmt: skip
+
     props = ALL if args.all_props else meta["checks_to_run"]
     res: dict = {"id": sdir.name, "property": meta["property"]}
     if args.in_place:
